@@ -610,6 +610,17 @@ func (c *codegen) computeMutates() {
 						if f.Name == "copy" && len(x.Args) == 2 && rooted(x.Args[0]) {
 							m = true
 						}
+						if f.Name == "clear" && len(x.Args) == 1 && rooted(x.Args[0]) && c.fns[fnKey{"", "clear"}] == nil {
+							m = true
+						}
+						// a slice of the receiver handed to a package-level function that writes its elements
+						if hd := c.fns[fnKey{"", f.Name}]; hd != nil && hd.Recv == nil {
+							for i, a := range x.Args {
+								if rooted(a) && c.writesParam(hd, i, 0) {
+									m = true
+								}
+							}
+						}
 						if ri := c.reflOf(f.Name); ri != nil && ri.setter && len(x.Args) > 0 && rooted(x.Args[0]) {
 							m = true
 						}
@@ -623,6 +634,63 @@ func (c *codegen) computeMutates() {
 			}
 		}
 	}
+}
+
+// writesParam: the function (syntactically) writes elements of its i-th parameter — by an element
+// assignment, copy, clear, or by handing it to a package-level function that does.
+func (c *codegen) writesParam(fd *ast.FuncDecl, i, depth int) bool {
+	if fd == nil || fd.Body == nil || fd.Type.Params == nil || depth > 4 {
+		return false
+	}
+	name := ""
+	n := 0
+	for _, f := range fd.Type.Params.List {
+		for _, id := range f.Names {
+			if n == i {
+				name = id.Name
+			}
+			n++
+		}
+	}
+	if name == "" || name == "_" {
+		return false
+	}
+	rooted := func(e ast.Expr) bool {
+		id := rootIdent(e)
+		return id != nil && id.Name == name
+	}
+	w := false
+	ast.Inspect(fd.Body, func(n ast.Node) bool {
+		switch x := n.(type) {
+		case *ast.AssignStmt:
+			if x.Tok != token.DEFINE {
+				for _, l := range x.Lhs {
+					if rooted(l) && indexOf(l) != nil {
+						w = true
+					}
+				}
+			}
+		case *ast.IncDecStmt:
+			if rooted(x.X) && indexOf(x.X) != nil {
+				w = true
+			}
+		case *ast.CallExpr:
+			if f, ok := x.Fun.(*ast.Ident); ok {
+				if (f.Name == "copy" || f.Name == "clear") && len(x.Args) > 0 && rooted(x.Args[0]) {
+					w = true
+				}
+				if hd := c.fns[fnKey{"", f.Name}]; hd != nil && hd.Recv == nil {
+					for j, a := range x.Args {
+						if rooted(a) && c.writesParam(hd, j, depth+1) {
+							w = true
+						}
+					}
+				}
+			}
+		}
+		return !w
+	})
+	return w
 }
 
 // ---------------------------------------------------------------- driver
